@@ -148,6 +148,39 @@ def run(run):
                     run.violation("C03:deep-construct-missing", "a source with a chain of %d `+` and %d nested ifs has %d %s, %s are reported" % (nops, nblocks, want, kind, got),
                                   dict(operators=nops, blocks=nblocks, kind=kind, expected=want, reported=got, generator="checks/c03.py (2b)"))
                     break
+        # (2c) size: a source of more than a megabyte (and of several): every method and every local of it is an entity
+        for mb in ([1.3] if quick else [1.05, 2.2, 5.0]):
+            root = C.scratch("c03big")
+            try:
+                parts, nmeth, nloc = ["package big;\n\nclass Table {\n"], 0, 0
+                size = len(parts[0])
+                while size < mb * 1048576:
+                    m = "  void fill%04d() {\n" % nmeth + "".join("    int cell_%04d_%03d = %d;\n" % (nmeth, j, j) for j in range(200)) + "  }\n"
+                    parts.append(m)
+                    size += len(m)
+                    nmeth += 1
+                    nloc += 200
+                parts.append("}\n")
+                os.makedirs(os.path.join(root, "gen"))
+                open(os.path.join(root, "gen", "Table.java"), "w").write("".join(parts))
+                open(os.path.join(root, "Small.java"), "w").write("class Small { void one() { int only = 1; } }\n")
+                rb = h.call(op="scan", dir=root, graph="big3", nonodes=True, timeout=600)
+                run.count(("big-source", mb))
+                stats["big_sources"] += 1
+                if rb.get("outcome") != "ok":
+                    run.violation("C03:scan-" + str(rb.get("outcome")), "scanning a project with a %.1f MB source ends with %s" % (mb, rb.get("outcome")), dict(megabytes=mb))
+                    if rb.get("outcome") in ("died", "hang"):
+                        h = C.Harness()
+                    continue
+                for kind, want in (("method_declaration", nmeth + 1), ("variable_declaration", nloc + 1), ("class_declaration", 2)):
+                    rq = h.call(op="query-entities", graph="big3", q="FROM %s AS x SELECT x.getName()" % kind, timeout=600)
+                    got = len(rq.get("tuples") or []) if rq.get("outcome") == "ok" else None
+                    if got != want:
+                        run.violation("C03:big-source-incomplete", "a project with a source of %.1f MB has %d %s, %s are reported" % (mb, want, kind, got),
+                                      dict(megabytes=mb, kind=kind, expected=want, reported=got, generator="checks/c03.py (2c)"))
+                        break
+            finally:
+                shutil.rmtree(root, ignore_errors=True)
         # (3) project level: nested directories, mixed extensions, files with equal content
         for pi in range(2 if quick else 10):
             root = C.scratch("c03proj")
